@@ -579,9 +579,12 @@ func runCLI(dir string, pkgArgs []string) (lines []string, code int, err error) 
 	var out string
 	for attempt := 0; attempt < 2; attempt++ {
 		out, code, err = common.Run(cliTimeout(curTier), dir, common.GoEnv(), filepath.Join(common.BinDir(), "go-critic"), args...)
-		if err == nil {
+		if err == nil && code != -1 {
 			break
 		}
+	}
+	if err == nil && code == -1 {
+		err = fmt.Errorf("killed by a signal (not by this harness): no observation")
 	}
 	if err != nil {
 		return nil, code, err
